@@ -3,7 +3,8 @@ import SnaxVerif.Model.Accfg
 Linked accfg IR (C07): the statements of `Model/Accfg.lean` WITH the state-typed SSA values.
 
 * `PStmt`/`PBlock` — the program before `accfg-trace-states`: every setup has a result state id and an optional
-  (possibly stale) input state, every launch names the state it runs on; `scf.for` / `scf.if` carry no state yet.
+  (possibly stale) input state, every launch names the state it runs on; `scf.if` carries no state yet, `scf.for`
+  may already carry state values (`PCar`: pre-existing threading of a loop).
 * `LStmt`/`LBlock` — the traced program: setups are linked, `scf.for` carries per accelerator
   (block argument, init, yielded, result), `scf.if` yields per accelerator (result, then-state, else-state).
 * `weave` — `_weave_states_in_region` (snaxc/transforms/convert_linalg_to_accfg.py) as it is at /repo HEAD.
@@ -75,6 +76,16 @@ structure ForCar where
   res : StateId
 deriving Repr, DecidableEq
 
+/-- a loop-carried state value that the INPUT program already has (pre-existing threading): block argument, init
+operand, yield operand, result — all ids of the input program -/
+structure PCar where
+  acc : AccId
+  arg : StateId
+  init : StateId
+  yld : StateId
+  res : StateId
+deriving Repr, DecidableEq
+
 mutual
 /-- program before state tracing -/
 inductive PStmt where
@@ -84,7 +95,7 @@ inductive PStmt where
   | pure (dst : Var) (op : PureOp) (args : List Var)
   | call (tag : Nat) (effects : Bool)
   | ifS (c : Var) (t e : PBlock)
-  | forS (lb ub step iv : Var) (body : PBlock)
+  | forS (lb ub step iv : Var) (body : PBlock) (car : List PCar)
 inductive PBlock where
   | nil
   | cons (s : PStmt) (r : PBlock)
@@ -117,7 +128,7 @@ def erasePS : PStmt → Stmt
   | .pure d op args => .pure d op args
   | .call t e => .call t e
   | .ifS c t e => .ifS c (eraseP t) (eraseP e)
-  | .forS lb ub st iv b => .forS lb ub st iv (eraseP b)
+  | .forS lb ub st iv b _ => .forS lb ub st iv (eraseP b)
 def eraseP : PBlock → Block
   | .nil => .nil
   | .cons s r => .cons (erasePS s) (eraseP r)
@@ -181,7 +192,7 @@ mutual
 def accsPS : PStmt → List AccId
   | .setup a _ _ _ => [a]
   | .ifS _ t e => accsPB t ++ accsPB e
-  | .forS _ _ _ _ b => accsPB b
+  | .forS _ _ _ _ b _ => accsPB b
   | _ => []
 def accsPB : PBlock → List AccId
   | .nil => []
@@ -193,7 +204,7 @@ mutual
 def effPS : PStmt → Bool
   | .call _ e => e
   | .ifS _ t e => effPB t || effPB e
-  | .forS _ _ _ _ b => effPB b
+  | .forS _ _ _ _ b _ => effPB b
   | _ => false
 def effPB : PBlock → Bool
   | .nil => false
@@ -248,12 +259,14 @@ structure WS where
   cur : Sig
   nxt : Nat
   rho : List (StateId × StateId)
+  bad : Bool                     -- the pass left the IR malformed (xDSL's verifier rejects the result)
 
 structure WB where
   blk : LBlock
   sig : Sig
   nxt : Nat
   rho : List (StateId × StateId)
+  bad : Bool
 
 /-- which accelerators get a new scf.if result: `calc_if_state_delta` (present in both branches and not unchanged in
 both), restricted to the accelerators set up in a branch (no other state value can differ), sorted -/
@@ -274,7 +287,7 @@ def ifFinish (c : Var) (σ : Sig) (cands : List AccId) (wt we : WB) (ρ : List (
      match ress.lookup a with
      | some v => some v
      | none => if (wt.sig a).isSome && (we.sig a).isSome then σ a else none,
-   noSig, we.nxt + ch.length, ρ⟩
+   noSig, we.nxt + ch.length, ρ, wt.bad || we.bad⟩
 
 /-- the dictionary passed into the body of a loop: the new block arguments for the accelerators set up in it -/
 def forBodySig (us : List AccId) (en : List (AccId × StateId) × Sig × Nat) : Sig :=
@@ -295,7 +308,31 @@ def forFinish (lb ub st iv : Var) (us : List AccId) (en : List (AccId × StateId
      match ress.lookup a with
      | some v => some v
      | none => if (wb.sig a).isSome then en.2.1 a else none,
-   noSig, ey.2.2 + us.length, ρ⟩
+   noSig, ey.2.2 + us.length, ρ, wb.bad⟩
+
+/-- scf.for that ALREADY carries state values (`car`, non-empty) — `find_existing_block_arg` re-uses the existing
+block argument of an accelerator: its init operand is kept (and the current state appended as a further operand
+when it is a different value: operands and block arguments then no longer match, `bad`), its yield operand is NOT
+touched (`created_block_args` only), its result becomes the state after the loop. `ρb` = the body's renaming. -/
+def forFinishP (lb ub st iv : Var) (us : List AccId) (en : List (AccId × StateId) × Sig × Nat) (wb : WB)
+    (ρ : List (StateId × StateId)) (car : List PCar) : WS :=
+  let args := mkIds us en.2.2
+  let created := us.filter fun a => !(car.any fun c => c.acc == a)
+  let ey := ensure created wb.sig wb.nxt
+  let ress := mkIds us ey.2.2
+  let yldOf : AccId → StateId := fun a =>
+    match car.find? (fun c => c.acc == a) with
+    | some c => (wb.rho.lookup c.yld).getD 0
+    | none => (ey.2.1 a).getD 0
+  ⟨en.1, .forS lb ub st iv (appEmpties wb.blk ey.1)
+        (us.map fun a => ForCar.mk a ((args.lookup a).getD 0) ((en.2.1 a).getD 0) (yldOf a) ((ress.lookup a).getD 0)),
+   fun a =>
+     match ress.lookup a with
+     | some v => some v
+     | none => if (wb.sig a).isSome then en.2.1 a else none,
+   noSig, ey.2.2 + us.length, (car.map fun c => (c.res, ((ress.lookup c.acc).getD 0))) ++ ρ,
+   wb.bad || car.any fun c =>
+     !(us.contains c.acc) || ρ.lookup c.init != en.2.1 c.acc || (wb.rho.lookup c.yld).isNone⟩
 
 /-
 `_weave_states_in_region`. Arguments: `σ` the state dictionary, `cur` (bookkeeping of the model only: the state
@@ -316,35 +353,59 @@ output state id (`rewriter.replace_op` redirects the uses of a re-created setup)
 mutual
 def weaveS : PStmt → Sig → Sig → Nat → List (StateId × StateId) → WS
   | .setup a fs out _, σ, cur, n, ρ =>
-      ⟨[], .setup a fs n (σ a), sset σ a n, sset cur a n, n + 1, (out, n) :: ρ⟩
+      ⟨[], .setup a fs n (σ a), sset σ a n, sset cur a n, n + 1, (out, n) :: ρ, false⟩
   | .launch a lv s, σ, cur, n, ρ =>
-      ⟨[], .launch a lv (ρ.lookup s) ((ρ.lookup s).isSome && ρ.lookup s == cur a), σ, cur, n, ρ⟩
-  | .await a, σ, cur, n, ρ => ⟨[], .await a, σ, cur, n, ρ⟩
-  | .pure d op args, σ, cur, n, ρ => ⟨[], .pure d op args, σ, cur, n, ρ⟩
+      ⟨[], .launch a lv (ρ.lookup s) ((ρ.lookup s).isSome && ρ.lookup s == cur a), σ, cur, n, ρ, false⟩
+  | .await a, σ, cur, n, ρ => ⟨[], .await a, σ, cur, n, ρ, false⟩
+  | .pure d op args, σ, cur, n, ρ => ⟨[], .pure d op args, σ, cur, n, ρ, false⟩
   | .call t e, σ, cur, n, ρ =>
-      ⟨[], .call t e, if e then noSig else σ, if e then noSig else cur, n, ρ⟩
+      ⟨[], .call t e, if e then noSig else σ, if e then noSig else cur, n, ρ, false⟩
   | .ifS c t e, σ, _, n, ρ =>
       let wt := weaveB t σ noSig n ρ
       let we := weaveB e σ noSig wt.nxt ρ
       ifFinish c σ (sortU (accsPB t ++ accsPB e)) wt we ρ
-  | .forS lb ub st iv body, σ, _, n, ρ =>
+  | .forS lb ub st iv body [], σ, _, n, ρ =>
       let us := sortU (accsPB body)
       if us.isEmpty then
         let wb := weaveB body σ noSig n ρ
-        ⟨[], .forS lb ub st iv wb.blk [], if effPB body then noSig else σ, noSig, wb.nxt, ρ⟩
+        ⟨[], .forS lb ub st iv wb.blk [], if effPB body then noSig else σ, noSig, wb.nxt, ρ, wb.bad⟩
       else
         let en := ensure us σ n
         forFinish lb ub st iv us en (weaveB body (forBodySig us en) noSig (en.2.2 + us.length) ρ) ρ
+  | .forS lb ub st iv body (c :: cs), σ, _, n, ρ =>
+      -- the same code path of the pass on a loop that already carries state values
+      let us := sortU (accsPB body)
+      if us.isEmpty then
+        -- (`continue`: nothing is touched; outside the fragment the correspondence feeds to the model)
+        let wb := weaveB body σ noSig n ρ
+        ⟨[], .forS lb ub st iv wb.blk [], if effPB body then noSig else σ, noSig, wb.nxt, ρ, true⟩
+      else
+        let en := ensure us σ n
+        let ρb := ((c :: cs).map fun k => (k.arg, (((mkIds us en.2.2).lookup k.acc).getD 0))) ++ ρ
+        forFinishP lb ub st iv us en (weaveB body (forBodySig us en) noSig (en.2.2 + us.length) ρb) ρ (c :: cs)
 def weaveB : PBlock → Sig → Sig → Nat → List (StateId × StateId) → WB
-  | .nil, σ, _, n, ρ => ⟨.nil, σ, n, ρ⟩
+  | .nil, σ, _, n, ρ => ⟨.nil, σ, n, ρ, false⟩
   | .cons s r, σ, cur, n, ρ =>
       let ws := weaveS s σ cur n ρ
       let wr := weaveB r ws.sig ws.cur ws.nxt ws.rho
-      ⟨prepend ws.pre (.cons ws.stmt wr.blk), wr.sig, wr.nxt, wr.rho⟩
+      ⟨prepend ws.pre (.cons ws.stmt wr.blk), wr.sig, wr.nxt, wr.rho, ws.bad || wr.bad⟩
 end
 
 /-- the pass on a function body: empty dictionary at entry -/
 def weave (p : PBlock) : LBlock := (weaveB p noSig noSig 0 []).blk
+/-- the pass leaves the IR malformed (the module verifier then raises) -/
+def weaveBad (p : PBlock) : Bool := (weaveB p noSig noSig 0 []).bad
+
+/- no loop of the input carries a state value yet (pre-existing links only on setups) -/
+mutual
+def plainPS : PStmt → Bool
+  | .ifS _ t e => plainPB t && plainPB e
+  | .forS _ _ _ _ b car => car.isEmpty && plainPB b
+  | _ => true
+def plainPB : PBlock → Bool
+  | .nil => true
+  | .cons s r => plainPS s && plainPB r
+end
 
 /- ===== what the compiler assumes at the setups and launches (pre-order), for the correspondence ===== -/
 def inferAt (D : StateId → Option LDef) (fuel : Nat) : Option StateId → Option LState
@@ -365,6 +426,38 @@ def annotLB (D : StateId → Option LDef) (fuel : Nat) : LBlock → List (Option
   | .cons s r => annotLS D fuel s ++ annotLB D fuel r
 end
 
+/-- facts behind a statement of the traced program (an inserted empty setup changes nothing) -/
+def stepF (s : LStmt) (G : Facts) : Facts :=
+  match eraseS s with
+  | some x => knownS x G
+  | none => G
+
+/- Decidable validation of the LINKS of a traced program against the position-based facts: at every setup and every
+straight-line launch, whatever `inferL` answers for the input state is contained in the facts `knownB` has there.
+(Run by the driver on the converted REAL traced IR of every case; `agree_soundChk`: it is implied by `AgreeB`.) -/
+def subRow (s : LState) (r : Field → Option Var) : Bool := s.all fun p => r p.1 == some p.2
+def chkAt (D : StateId → Option LDef) (fuel : Nat) (o : Option StateId) (r : Field → Option Var) : Bool :=
+  match o with
+  | none => true
+  | some v =>
+    match inferL D fuel [] v with
+    | none => true
+    | some s => subRow s r
+mutual
+def soundChkS (D : StateId → Option LDef) (fuel : Nat) : LStmt → Facts → Bool
+  | .setup a _ _ inp, G => chkAt D fuel inp (G a)
+  | .empty _ _, _ => true
+  | .launch a _ st cur, G => !cur || chkAt D fuel st (G a)
+  | .await _, _ => true
+  | .pure _ _ _, _ => true
+  | .call _ _, _ => true
+  | .ifS _ t e _, G => soundChkB D fuel t G && soundChkB D fuel e G
+  | .forS _ _ _ _ b _, G => soundChkB D fuel b (headFacts (erase b) G)
+def soundChkB (D : StateId → Option LDef) (fuel : Nat) : LBlock → Facts → Bool
+  | .nil, _ => true
+  | .cons s r, G => soundChkS D fuel s G && soundChkB D fuel r (stepF s G)
+end
+
 /-- a fuel that is generous for every program met in practice: (number of state values + 2)² -/
 def fuelOf (L : LBlock) : Nat := ((ldefsB L).length + 2) * ((ldefsB L).length + 2)
 
@@ -373,7 +466,7 @@ mutual
 def nodupPS : PStmt → Bool
   | .setup _ fs _ _ => decide (fs.map (·.1)).Nodup
   | .ifS _ t e => nodupPB t && nodupPB e
-  | .forS _ _ _ _ b => nodupPB b
+  | .forS _ _ _ _ b _ => nodupPB b
   | _ => true
 def nodupPB : PBlock → Bool
   | .nil => true
